@@ -155,7 +155,7 @@ void h_system_init(void)
 #else /* ------------------------------ everything else: plain harnesses ------------------------------ */
 
 /* ---- call records ---- */
-#define G1_NC 8
+#define G1_NC 4
 struct g1_rec { unsigned n; const void *a[G1_NC]; const void *b[G1_NC]; long i[G1_NC]; unsigned seq[G1_NC]; };
 unsigned g_seq;                       /* global call sequence */
 unsigned g_fail;                      /* failures injected by the stubs */
@@ -168,17 +168,21 @@ static void g1_rec(struct g1_rec *r, const void *a, const void *b, long i)
 static int g1_may_fail(void) { if (nondet_bool()) { g_fail++; return -1; } return 0; }
 #define CALL_IS(r, k, A, B, I) ((r).a[k] == (const void *) (A) && (r).b[k] == (const void *) (B) && (r).i[k] == (long) (I))
 
-/* ---- typed static pools ---- */
-static struct loom g1_L0, g1_L1, g1_L2;
-static struct proc g1_P0, g1_P1, g1_P2;
-static struct thread g1_T0, g1_T1, g1_T2;
-static struct stream g1_S0, g1_S1, g1_S2;
+/* ---- typed object pools: separate static objects (zero-initialised; the stubs that stand
+ * for *_init_begin set the fields that matter and the harnesses make the others arbitrary
+ * where the real code reads them) ---- */
+static struct loom g1_L0, g1_L1, g1_L2; static struct proc g1_P0, g1_P1, g1_P2;
+static struct thread g1_T0, g1_T1, g1_T2; static struct stream g1_S0, g1_S1, g1_S2;
+#ifdef H_INIT_END_SYSTEM
+static struct cpu g1_C0, g1_C1;
+#define CPU(k) ((k) == 0 ? &g1_C0 : &g1_C1)
+#endif
 static struct lpt g1_lpt[3];
 #define LOOM(k) ((k) == 0 ? &g1_L0 : (k) == 1 ? &g1_L1 : &g1_L2)
 #define PROC(k) ((k) == 0 ? &g1_P0 : (k) == 1 ? &g1_P1 : &g1_P2)
 #define THREAD(k) ((k) == 0 ? &g1_T0 : (k) == 1 ? &g1_T1 : &g1_T2)
 #define STREAM(k) ((k) == 0 ? &g1_S0 : (k) == 1 ? &g1_S1 : &g1_S2)
-static int sidx(const struct stream *s) { return s == &g1_S0 ? 0 : s == &g1_S1 ? 1 : 2; }
+static int sidx(const struct stream *s) { return s == STREAM(0) ? 0 : s == STREAM(1) ? 1 : 2; }
 unsigned g_nl, g_np, g_nt;            /* objects handed out */
 void *malloc(size_t sz)
 {
@@ -224,12 +228,17 @@ void *stream_data_get(struct stream *s) { return s->data; }
 struct g1_rec r_loom_init_begin, r_loom_load_md, r_loom_find_proc, r_loom_add_proc;
 struct g1_rec r_proc_init_begin, r_proc_load_md, r_proc_find_thread, r_proc_add_thread;
 struct g1_rec r_thread_init_begin, r_thread_load_md;
+char g_lname[3][2];                   /* names of the pool looms (what loom->id points to) */
 int loom_init_begin(struct loom *loom, const char *name)
 {
 	g1_rec(&r_loom_init_begin, loom, name, 0);
 	if (g1_may_fail()) return -1;
-	loom->name[0] = name[0]; loom->name[1] = name[0] == '\0' ? '\0' : name[1];
-	loom->id = loom->name; loom->next = NULL; loom->prev = NULL; loom->clock_offset = 0; loom->procs = NULL;
+	/* the id is the name (the real one points id at loom->name; the copy lives in a small
+	 * ghost buffer per pool object: writing the 4 KB name array through a merged pointer
+	 * costs 3.7 M variables) */
+	char *nm = loom == LOOM(0) ? g_lname[0] : loom == LOOM(1) ? g_lname[1] : g_lname[2];
+	nm[0] = name[0]; nm[1] = name[0] == '\0' ? '\0' : name[1];
+	loom->id = nm; loom->next = NULL; loom->prev = NULL; loom->clock_offset = 0; loom->procs = NULL;
 	return 0;
 }
 int loom_load_metadata(struct loom *loom, struct stream *s) { g1_rec(&r_loom_load_md, loom, s, 0); return g1_may_fail(); }
@@ -350,9 +359,10 @@ static void g1_any_streams(void)
 #ifdef H_SYSTEM_GET_LPT
 void h_system_get_lpt(void)
 {
-	struct stream *s = &g1_S0;
+	g1_reset();
+	struct stream *s = STREAM(0);
 	int has = nondet_bool(), consistent = nondet_bool();
-	g1_lpt[1].stream = consistent ? s : &g1_S1;
+	g1_lpt[1].stream = consistent ? s : STREAM(1);
 	s->data = has ? &g1_lpt[1] : NULL;
 	struct lpt *l = system_get_lpt(s);
 	VASSERT(has || l == NULL, "a stream without (loom, process, thread) has no entry");
@@ -367,16 +377,17 @@ void h_system_get_lpt(void)
 void h_find_loom(void)
 {
 	static struct system sys;
+	g1_reset();
 	int n = nondet_int(); __CPROVER_assume(n >= 0 && n <= 3);
 	for (int k = 0; k < 3; k++) {
 		struct loom *l = LOOM(k);
-		char c = nondet_char(); l->name[0] = c; l->name[1] = '\0'; l->id = l->name;
+		char c = nondet_char(); g_lname[k][0] = c; g_lname[k][1] = '\0'; l->id = g_lname[k];
 		l->next = (k + 1 < n) ? LOOM(k + 1) : NULL;
 	}
-	sys.looms = n > 0 ? &g1_L0 : NULL;
+	sys.looms = n > 0 ? LOOM(0) : NULL;
 	char id[2]; id[1] = '\0';
 	int first = -1;
-	for (int k = 2; k >= 0; k--) if (k < n && LOOM(k)->name[0] == id[0]) first = k;
+	for (int k = 2; k >= 0; k--) if (k < n && g_lname[k][0] == id[0]) first = k;
 	struct loom *r = find_loom(&sys, id);
 	VASSERT((r == NULL) == (first < 0), "NULL exactly when no loom has that name");
 	VASSERT(first < 0 || r == LOOM(first), "the loom with that name is found");
@@ -392,10 +403,10 @@ void h_find_loom(void)
 void h_create_thread(void)
 {
 	g1_reset(); g1_any_streams();
-	struct proc *proc = &g1_P0; struct stream *s = &g1_S0;
+	struct proc *proc = PROC(0); struct stream *s = STREAM(0);
 	/* the process already has 0 or 1 threads */
 	int has_old = nondet_bool(); int old_tid = nondet_int();
-	struct thread *old = &g1_T2;
+	struct thread *old = THREAD(2);
 	if (has_old) { g_ttab[0].proc = proc; g_ttab[0].tid = old_tid; g_ttab[0].thread = old; g_ttab_n = 1; }
 	int tid = g_s_tid[0];
 	struct thread *t = create_thread(proc, s);
@@ -406,7 +417,7 @@ void h_create_thread(void)
 	VASSERT(tid < 0 || (r_proc_find_thread.n >= 1 && CALL_IS(r_proc_find_thread, 0, proc, NULL, tid)), "the TID is looked up in THIS process");
 	if (dup) VASSERT(t == NULL && g_nt == 0 && r_proc_add_thread.n == 0, "duplicate TID: refused, nothing created or added");
 	if (t != NULL) {
-		VASSERT(t == &g1_T0 && t != old, "a new thread object");
+		VASSERT(t == THREAD(0) && t != old, "a new thread object");
 		VASSERT(r_thread_init_begin.n == 1 && CALL_IS(r_thread_init_begin, 0, t, NULL, tid), "initialised with the stream's TID");
 		VASSERT(r_thread_load_md.n == 1 && CALL_IS(r_thread_load_md, 0, t, s, 0), "the stream's metadata is loaded into it");
 		VASSERT(r_proc_add_thread.n == 1 && CALL_IS(r_proc_add_thread, 0, proc, t, tid), "added to THIS process under its TID");
@@ -427,12 +438,12 @@ void h_create_thread(void)
 void h_create_proc(void)
 {
 	g1_reset(); g1_any_streams();
-	struct loom *loom = &g1_L0; struct stream *s = &g1_S0;
+	struct loom *loom = LOOM(0); struct stream *s = STREAM(0);
 	/* the loom already has 0 or 1 processes; another loom may have a process with any pid */
 	int has_old = nondet_bool(); int old_pid = nondet_int();
-	struct proc *old = &g1_P2;
+	struct proc *old = PROC(2);
 	if (has_old) { g_ptab[0].loom = loom; g_ptab[0].pid = old_pid; g_ptab[0].proc = old; g_ptab_n = 1; old->pid = old_pid; old->loom = loom; }
-	g_ptab[g_ptab_n].loom = &g1_L1; g_ptab[g_ptab_n].pid = nondet_int(); g_ptab[g_ptab_n].proc = &g1_P1; g_ptab_n++;
+	g_ptab[g_ptab_n].loom = LOOM(1); g_ptab[g_ptab_n].pid = nondet_int(); g_ptab[g_ptab_n].proc = PROC(1); g_ptab_n++;
 	int pid = g_s_pid[0];
 	struct proc *p = create_proc(loom, s);
 	int known = has_old && old_pid == pid;
@@ -443,7 +454,7 @@ void h_create_proc(void)
 	if (p != NULL) {
 		if (known) VASSERT(p == old && g_np == 0 && r_loom_add_proc.n == 0 && r_proc_init_begin.n == 0, "a known PID of this loom: the existing process, nothing created");
 		else {
-			VASSERT(p == &g1_P0, "an unknown PID: a new process object");
+			VASSERT(p == PROC(0), "an unknown PID: a new process object");
 			VASSERT(r_proc_init_begin.n == 1 && CALL_IS(r_proc_init_begin, 0, p, NULL, pid), "initialised with the stream's PID");
 			VASSERT(r_loom_add_proc.n == 1 && CALL_IS(r_loom_add_proc, 0, loom, p, pid) && r_proc_init_begin.seq[0] < r_loom_add_proc.seq[0], "then added to THIS loom under its PID");
 		}
@@ -466,16 +477,16 @@ void h_create_loom(void)
 {
 	static struct system sys;
 	g1_reset(); g1_any_streams();
-	struct stream *s = &g1_S0;
+	struct stream *s = STREAM(0);
 	/* the system already has 0..2 looms (objects L1, L2) with arbitrary one-character names */
 	int n = nondet_int(); __CPROVER_assume(n >= 0 && n <= 2);
-	struct loom *a = &g1_L1, *b = &g1_L2;
-	a->name[0] = nondet_char(); a->name[1] = '\0'; a->id = a->name; b->name[0] = nondet_char(); b->name[1] = '\0'; b->id = b->name;
-	__CPROVER_assume(n < 2 || a->name[0] != b->name[0]);        /* names are unique (invariant of this function) */
+	struct loom *a = LOOM(1), *b = LOOM(2);
+	g_lname[1][0] = nondet_char(); g_lname[1][1] = '\0'; a->id = g_lname[1]; g_lname[2][0] = nondet_char(); g_lname[2][1] = '\0'; b->id = g_lname[2];
+	__CPROVER_assume(n < 2 || a->id[0] != b->id[0]);        /* names are unique (invariant of this function) */
 	a->next = n == 2 ? b : NULL; b->next = NULL; a->prev = n == 2 ? b : a; b->prev = a;
 	sys.looms = n > 0 ? a : NULL; sys.nlooms = (size_t) n;
 	char c = g_s_name[0][0];
-	int known = (n >= 1 && a->name[0] == c) ? 1 : (n == 2 && b->name[0] == c) ? 2 : 0;
+	int known = (n >= 1 && a->id[0] == c) ? 1 : (n == 2 && b->id[0] == c) ? 2 : 0;
 	struct loom *l = create_loom(&sys, s);
 	VASSERT((l != NULL) == (g_s_hasname[0] && g_fail == 0), "a loom is found or created exactly when the stream names its loom (and nothing below fails)");
 	VASSERT(l != NULL || g_err > 0, "a refusal is diagnosed");
@@ -484,12 +495,12 @@ void h_create_loom(void)
 		if (known) {
 			VASSERT(l == (known == 1 ? a : b) && g_nl == 0 && r_loom_init_begin.n == 0 && sys.nlooms == (size_t) n, "a known name: the existing loom, nothing created");
 		} else {
-			VASSERT(l == &g1_L0 && r_loom_init_begin.n == 1 && r_loom_init_begin.a[0] == l && r_loom_init_begin.b[0] == g_s_name[0], "an unknown name: a new loom initialised with that name");
+			VASSERT(l == LOOM(0) && r_loom_init_begin.n == 1 && r_loom_init_begin.a[0] == l && r_loom_init_begin.b[0] == g_s_name[0], "an unknown name: a new loom initialised with that name");
 			VASSERT(sys.nlooms == (size_t) n + 1, "counted");
 			VASSERT(n == 0 ? (sys.looms == l && l->prev == l) : (sys.looms == a && (n == 1 ? a : b)->next == l && a->prev == l), "appended at the END of the loom list");
 			VASSERT(l->next == NULL, "list terminated");
 		}
-		VASSERT(l->name[0] == c, "the loom has the stream's loom name");
+		VASSERT(l->id[0] == c, "the loom has the stream's loom name");
 		VASSERT(r_loom_load_md.n == 1 && CALL_IS(r_loom_load_md, 0, l, s, 0), "the stream's metadata (CPU list) is merged into the loom, new or not");
 		VASSERT(known || r_loom_init_begin.seq[0] < r_loom_load_md.seq[0], "after its creation");
 		if (known == 2) REACH("second existing loom found");
@@ -509,9 +520,12 @@ void h_create_system(void)
 {
 	static struct system sys; static struct trace trace;
 	g1_reset(); g1_any_streams();
-	int n = nondet_int(); __CPROVER_assume(n >= 0 && n <= 3);
+#ifndef G1_NS
+#define G1_NS 3
+#endif
+	int n = nondet_int(); __CPROVER_assume(n >= 0 && n <= G1_NS);
 	for (int i = 0; i < 3; i++) { STREAM(i)->next = (i + 1 < n) ? STREAM(i + 1) : NULL; }
-	trace.streams = n > 0 ? &g1_S0 : NULL; trace.nstreams = n;
+	trace.streams = n > 0 ? STREAM(0) : NULL; trace.nstreams = n;
 	sys.looms = NULL; sys.nlooms = 0; sys.lpt = NULL;
 
 	/* SPECIFICATION, from the streams' attributes only */
@@ -541,7 +555,7 @@ void h_create_system(void)
 			struct lpt *e = (struct lpt *) s->data;
 			VASSERT(e == &sys.lpt[rank[i]] && e == &g1_lpt[rank[i]], "thread streams get consecutive entries of the map, in stream order");
 			VASSERT(e->stream == s, "the entry points back to its stream");
-			VASSERT(e->loom != NULL && e->loom->name[0] == g_s_name[i][0], "its loom is the loom with the stream's loom name");
+			VASSERT(e->loom != NULL && e->loom->id[0] == g_s_name[i][0], "its loom is the loom with the stream's loom name");
 			VASSERT(e->proc != NULL && e->proc->pid == g_s_pid[i] && e->proc->loom == e->loom, "its process has the stream's PID and lives in that loom");
 			VASSERT(e->thread != NULL && e->thread->tid == g_s_tid[i] && e->thread->proc == e->proc, "its thread has the stream's TID and lives in that process");
 			int first_of_loom = 1;
@@ -564,23 +578,22 @@ void h_create_system(void)
 		long len = 0; for (struct loom *l = sys.looms; l != NULL; l = l->next) len++;
 		VASSERT(len == (long) nlooms, "all of them in the loom list");
 		VASSERT(g_nt == (unsigned) nth, "one thread per thread stream");
-		if (nth == 3 && nlooms == 1 && g_np == 1) REACH("three threads of one process");
-		if (nth == 3 && nlooms == 3) REACH("three looms");
-		if (nth == 3 && nlooms == 2 && g_np == 3) REACH("two looms, three processes");
-		if (nth == 2 && n == 3 && !isth[1]) REACH("a non-thread stream in the middle is ignored");
-		if (nth == 2 && nlooms == 2 && g_s_pid[0] == g_s_pid[1] && g_s_tid[0] == g_s_tid[1]) REACH("same PID and TID on two looms are different processes");
-		if (n == 0) REACH("empty trace");
+#if G1_NS >= 3
+		if (nth == 3 && nlooms == 2 && g_np == 3 && isth[1]) REACH("three thread streams: two looms, three processes");
+		if (nth == 2 && n == 3 && !isth[1] && nlooms == 1 && g_np == 1) REACH("a non-thread stream in the middle is ignored; two threads of one process");
+#else
+		if (nth == 2 && nlooms == 1 && g_np == 2) REACH("two processes of one loom");
+		if (nth == 1 && n == 2 && !isth[0]) REACH("a non-thread stream first is ignored");
+#endif
 	} else {
 		if (g_fail == 0 && nth == 2 && n == 2 && g_s_hasname[0] && g_s_hasname[1] && g_s_pid[0] >= 0 && g_s_tid[0] >= 0 && g_s_name[0][0] == g_s_name[1][0] && g_s_pid[0] == g_s_pid[1] && g_s_tid[0] == g_s_tid[1]) REACH("duplicate TID refused");
-		if (g_fail == 0 && n == 1 && g_s_meta[0] && g_s_part[0] == 0) REACH("stream without ovni.part refused");
-		if (g_fail == 1 && legal && nth == 3 && r_thread_load_md.n == 3) REACH("failure on the third stream reported");
+		if (g_fail == 1 && legal && nth == G1_NS && r_thread_load_md.n == G1_NS) REACH("failure on the last stream reported");
 	}
 }
 #endif
 
 /* ------------------------------- init_end_system ------------------------------- */
 #ifdef H_INIT_END_SYSTEM
-static struct cpu g1_C0, g1_C1;
 void h_init_end_system(void)
 {
 	static struct system sys;
@@ -591,12 +604,12 @@ void h_init_end_system(void)
 	int nt0 = nondet_int(); __CPROVER_assume(nt0 >= 0 && nt0 <= 2);
 	int nt1 = nondet_bool(), np1 = nondet_bool();
 	int nc0 = nondet_int(); __CPROVER_assume(nc0 >= 0 && nc0 <= 2);
-	g1_L0.next = nl == 2 ? &g1_L1 : NULL; g1_L1.next = NULL; sys.looms = nl > 0 ? &g1_L0 : NULL;
-	g1_L0.procs = np0 > 0 ? &g1_P0 : NULL; g1_P0.hh.next = np0 == 2 ? &g1_P1 : NULL; g1_P1.hh.next = NULL;
-	g1_L1.procs = np1 ? &g1_P2 : NULL; g1_P2.hh.next = NULL;
-	g1_P0.threads = nt0 > 0 ? &g1_T0 : NULL; g1_T0.hh.next = nt0 == 2 ? &g1_T1 : NULL; g1_T1.hh.next = NULL;
-	g1_P1.threads = nt1 ? &g1_T2 : NULL; g1_T2.hh.next = NULL; g1_P2.threads = NULL;
-	g1_L0.cpus = nc0 > 0 ? &g1_C0 : NULL; g1_C0.hh.next = nc0 == 2 ? &g1_C1 : NULL; g1_C1.hh.next = NULL; g1_L1.cpus = NULL;
+	LOOM(0)->next = nl == 2 ? LOOM(1) : NULL; LOOM(1)->next = NULL; sys.looms = nl > 0 ? LOOM(0) : NULL;
+	LOOM(0)->procs = np0 > 0 ? PROC(0) : NULL; PROC(0)->hh.next = np0 == 2 ? PROC(1) : NULL; PROC(1)->hh.next = NULL;
+	LOOM(1)->procs = np1 ? PROC(2) : NULL; PROC(2)->hh.next = NULL;
+	PROC(0)->threads = nt0 > 0 ? THREAD(0) : NULL; THREAD(0)->hh.next = nt0 == 2 ? THREAD(1) : NULL; THREAD(1)->hh.next = NULL;
+	PROC(1)->threads = nt1 ? THREAD(2) : NULL; THREAD(2)->hh.next = NULL; PROC(2)->threads = NULL;
+	LOOM(0)->cpus = nc0 > 0 ? CPU(0) : NULL; CPU(0)->hh.next = nc0 == 2 ? CPU(1) : NULL; CPU(1)->hh.next = NULL; LOOM(1)->cpus = NULL;
 	/* expected visits */
 	unsigned eth = 0, epr = 0, ecpu = 0, elo = (unsigned) nl;
 	if (nl >= 1) { epr += (unsigned) np0; if (np0 >= 1) eth += (unsigned) nt0; if (np0 == 2) eth += (unsigned) nt1; ecpu += (unsigned) nc0 + 1; }
@@ -609,20 +622,20 @@ void h_init_end_system(void)
 		VASSERT(r_thread_init_end.n == eth && r_proc_init_end.n == epr && r_cpu_init_end.n == ecpu && r_loom_init_end.n == elo, "every thread, process, CPU (physical and virtual) and loom is completed exactly once");
 		if (nl >= 1) {
 			unsigned k = 0;
-			if (np0 >= 1 && nt0 >= 1) { VASSERT(r_thread_init_end.a[k] == &g1_T0, "threads of the first process"); k++; }
-			if (np0 >= 1 && nt0 == 2) { VASSERT(r_thread_init_end.a[k] == &g1_T1, "threads of the first process"); k++; }
-			if (np0 == 2 && nt1) { VASSERT(r_thread_init_end.a[k] == &g1_T2, "thread of the second process"); k++; }
-			if (np0 >= 1) VASSERT(r_proc_init_end.a[0] == &g1_P0, "first process");
-			if (np0 == 2) VASSERT(r_proc_init_end.a[1] == &g1_P1, "second process");
-			if (nc0 >= 1) VASSERT(r_cpu_init_end.a[0] == &g1_C0, "first CPU");
-			if (nc0 == 2) VASSERT(r_cpu_init_end.a[1] == &g1_C1, "second CPU");
-			VASSERT(r_cpu_init_end.a[nc0] == &g1_L0.vcpu, "the virtual CPU of the loom, after its physical CPUs");
-			VASSERT(r_loom_init_end.a[0] == &g1_L0 && r_loom_init_end.seq[0] > r_cpu_init_end.seq[nc0], "the loom is completed after its CPUs");
+			if (np0 >= 1 && nt0 >= 1) { VASSERT(r_thread_init_end.a[k] == THREAD(0), "threads of the first process"); k++; }
+			if (np0 >= 1 && nt0 == 2) { VASSERT(r_thread_init_end.a[k] == THREAD(1), "threads of the first process"); k++; }
+			if (np0 == 2 && nt1) { VASSERT(r_thread_init_end.a[k] == THREAD(2), "thread of the second process"); k++; }
+			if (np0 >= 1) VASSERT(r_proc_init_end.a[0] == PROC(0), "first process");
+			if (np0 == 2) VASSERT(r_proc_init_end.a[1] == PROC(1), "second process");
+			if (nc0 >= 1) VASSERT(r_cpu_init_end.a[0] == CPU(0), "first CPU");
+			if (nc0 == 2) VASSERT(r_cpu_init_end.a[1] == CPU(1), "second CPU");
+			VASSERT(r_cpu_init_end.a[nc0] == &LOOM(0)->vcpu, "the virtual CPU of the loom, after its physical CPUs");
+			VASSERT(r_loom_init_end.a[0] == LOOM(0) && r_loom_init_end.seq[0] > r_cpu_init_end.seq[nc0], "the loom is completed after its CPUs");
 			if (np0 >= 1 && nt0 >= 1) VASSERT(r_thread_init_end.seq[0] < r_proc_init_end.seq[0], "a process is completed after its threads");
 		}
 		if (nl == 2) {
-			VASSERT(r_cpu_init_end.a[nc0 + 1] == &g1_L1.vcpu && r_loom_init_end.a[1] == &g1_L1, "second loom: its virtual CPU, then the loom");
-			if (np1) VASSERT(r_proc_init_end.a[np0] == &g1_P2, "process of the second loom");
+			VASSERT(r_cpu_init_end.a[nc0 + 1] == &LOOM(1)->vcpu && r_loom_init_end.a[1] == LOOM(1), "second loom: its virtual CPU, then the loom");
+			if (np1) VASSERT(r_proc_init_end.a[np0] == PROC(2), "process of the second loom");
 		}
 		if (nl == 2 && np0 == 2 && nt0 == 2 && nt1 && nc0 == 2 && np1) REACH("full topology completed");
 		if (nl == 0) REACH("no looms");
@@ -679,12 +692,12 @@ void h_init_offsets(void)
 	static struct system sys; static struct trace trace;
 	g1_reset();
 	/* two looms with one-character host names; <= 3 streams, each mapped to a loom or not an LPT stream */
-	g1_L0.hostname[0] = nondet_char(); g1_L0.hostname[1] = '\0'; g1_L1.hostname[0] = nondet_char(); g1_L1.hostname[1] = '\0';
-	__CPROVER_assume(g1_L0.hostname[0] != '\0' && g1_L1.hostname[0] != '\0');
+	LOOM(0)->hostname[0] = nondet_char(); LOOM(0)->hostname[1] = '\0'; LOOM(1)->hostname[0] = nondet_char(); LOOM(1)->hostname[1] = '\0';
+	__CPROVER_assume(LOOM(0)->hostname[0] != '\0' && LOOM(1)->hostname[0] != '\0');
 	int nl = nondet_int(); __CPROVER_assume(nl >= 1 && nl <= 2);
-	g1_L0.next = nl == 2 ? &g1_L1 : NULL; g1_L1.next = NULL; g1_L0.prev = nl == 2 ? &g1_L1 : &g1_L0; g1_L1.prev = &g1_L0;
-	g1_L0.clock_offset = 0; g1_L1.clock_offset = 0;      /* new looms have no offset (g1_loom_init_begin) */
-	sys.looms = &g1_L0; sys.nlooms = (size_t) nl;
+	LOOM(0)->next = nl == 2 ? LOOM(1) : NULL; LOOM(1)->next = NULL; LOOM(0)->prev = nl == 2 ? LOOM(1) : LOOM(0); LOOM(1)->prev = LOOM(0);
+	LOOM(0)->clock_offset = 0; LOOM(1)->clock_offset = 0;      /* new looms have no offset (g1_loom_init_begin) */
+	sys.looms = LOOM(0); sys.nlooms = (size_t) nl;
 	int n = nondet_int(); __CPROVER_assume(n >= 0 && n <= 3);
 	int islpt[3], lo[3], nlpt = 0;
 	for (int i = 0; i < 3; i++) {
@@ -696,11 +709,13 @@ void h_init_offsets(void)
 		s->data = islpt[i] ? &g1_lpt[i] : NULL;
 		nlpt += islpt[i];
 	}
-	trace.streams = n > 0 ? &g1_S0 : NULL; trace.nstreams = n;
+	trace.streams = n > 0 ? STREAM(0) : NULL; trace.nstreams = n;
 	/* the table: <= 2 hosts with distinct names (clkoff.c refuses duplicates) */
 	g_co_n = nondet_int(); __CPROVER_assume(g_co_n >= 0 && g_co_n <= 2);
 	g1_E0.name[0] = nondet_char(); g1_E0.name[1] = '\0'; g1_E1.name[0] = nondet_char(); g1_E1.name[1] = '\0';
 	__CPROVER_assume(g1_E0.name[0] != '\0' && g1_E1.name[0] != '\0' && g1_E0.name[0] != g1_E1.name[0]);
+	{ double m0, m1, a0, a1; g1_E0.median = m0; g1_E1.median = m1; g1_E0.mean = a0; g1_E1.mean = a1; }   /* arbitrary */
+	/* offsets come from the table as doubles; keep them convertible (observation O2 otherwise) */
 	__CPROVER_assume(g1_E0.median > -1e15 && g1_E0.median < 1e15 && g1_E1.median > -1e15 && g1_E1.median < 1e15);
 	/* SPECIFICATION: the offset of a loom is the median of the table line of its host, 0 without
 	 * a line; every line must name the host of some loom */
@@ -714,14 +729,14 @@ void h_init_offsets(void)
 	for (int e = 0; e < 2; e++) {
 		if (e >= g_co_n) continue;
 		char h = e == 0 ? g1_E0.name[0] : g1_E1.name[0];
-		if (!(g1_L0.hostname[0] == h || (nl == 2 && g1_L1.hostname[0] == h))) table_ok = 0;
+		if (!(LOOM(0)->hostname[0] == h || (nl == 2 && LOOM(1)->hostname[0] == h))) table_ok = 0;
 	}
 	int r = init_offsets(&sys, &trace);
 	VASSERT((r == 0) == (table_ok && g_fail == 0), "offsets are applied exactly when every table line names a host of the trace (and every stream accepts its offset)");
 	VASSERT(r == 0 || (r == -1 && g_err > 0), "a refusal is diagnosed");
 	VASSERT((g_warn > 0) == (g_co_n == 0 && nl > 1), "a trace with several looms and no offset table gets a warning");
 	if (r == 0) {
-		VASSERT(g1_L0.clock_offset == want[0] && (nl < 2 || g1_L1.clock_offset == want[1]), "every loom has the MEDIAN offset of its host (0 without a line)");
+		VASSERT(LOOM(0)->clock_offset == want[0] && (nl < 2 || LOOM(1)->clock_offset == want[1]), "every loom has the MEDIAN offset of its host (0 without a line)");
 		VASSERT(r_clkoff_set.n == (unsigned) nlpt, "stream_clkoff_set once per thread stream, none for the others");
 		unsigned k = 0;
 		for (int i = 0; i < 3; i++) {
